@@ -674,10 +674,16 @@ impl Engine for C19 {
                                     _ => false,
                                 })
                         });
-                        let ok = diff_model(u, &model, &got).is_none() || alt.is_ok_and(|(m, _)| diff_model(u, &m, &got).is_none());
+                        // (the fault-free answer is the real T0 result: a T0 mismatch is reported by T0, once)
+                        let ok = diff_got(u, &base, &got).is_none() || alt.is_ok_and(|(m, _)| diff_model(u, &m, &got).is_none());
                         if !ok {
-                            let (path, detail) = diff_model(u, &model, &got).unwrap();
+                            let (path, detail) = diff_model(u, &model, &got).unwrap_or_else(|| ("result".into(), diff_got(u, &base, &got).unwrap_or_default()));
                             out.push(Violation::new("T2", "reader-ok-with-wrong-data", path, format!("faults fired {fired:?}; {detail}")));
+                        }
+                        if s2.wrong_mv_fired > 0 && diff_got(u, &base, &got).is_none() {
+                            // a POM with another modelVersion was used as if it were 4.0.0: more tolerant than the
+                            // crate means to be, but no property forbids it - counted, not flagged
+                            st.probe("lenient_accept_wrong_model_version");
                         }
                     }
                 }
